@@ -30,7 +30,7 @@ CHECKS = {
          "A database holding one feature for every pair of bin-boundary coordinates (and one over positions 1..6) is queried with every interval of the same set x completely_within x 12 call forms (region kwargs/tuple/string/Feature/no seqid/one-sided, limit= of all_features, features_of_type, children, parents) x strand x featuretype; each answer is compared with a brute-force scan.",
          "3/C06", "region(Feature) strand accepted under both readings; one-sided forms checked with inclusion bounds; " + TRUST),
  "C10": ("E2", "explicit-state breadth-first search over real update/delete/add_relation/reopen histories with canonical-state deduplication and a reference model; exhaustive fault-position enumeration",
-         "All histories up to depth 3 (quick) / 4 (thorough) over 22 events on a real file database are replayed on a live FeatureDB with a reference model alongside; every distinct reached state (deduplicated on a canonical form of all tables plus in-memory counters) is compared with the model through a second connection, the .bak file with the pre-operation state, and every update bundle is re-run with its feature source failing at every position.",
+         "All histories up to depth 3 (quick) / 4 (thorough) after choosing one of three initial databases (GFF3 chain with or without an id-less feature; GTF with inference disabled), over 22 GFF3 / 13 GTF events on a real file database, are replayed on a live FeatureDB with a reference model alongside; every distinct reached state (deduplicated on a canonical form of all tables plus in-memory counters) is compared with the model through a second connection, the .bak file with the pre-operation state, and every update bundle is re-run with its feature source failing at every position.",
          "3/C10", "small-scope (depth/alphabet); after a failed operation only the backup is judged; " + TRUST),
  "C11": ("E1", "stateless exhaustive enumeration of filter/order_by/reverse combinations against a full scan of a memoised real database",
          "On a 16-feature (thorough: also 30-feature) database with mixed-case/non-ASCII seqids, numeric-looking scores, ties and '.' coordinates, every combination of method x featuretype x strand x order_by (12 names as string, 1-tuple, all ordered pairs) x reverse is run; result sets are compared with a brute-force filter and sequences must be monotone under SQLite's comparison; counts and distinct listings are compared too.",
